@@ -660,6 +660,15 @@ func buildSigned(r *core.Rand, kind string, ht txscript.SigHashType, nIn, nOut, 
 
 func sha256sum(b []byte) []byte { h := sha256.Sum256(b); return h[:] }
 
+func safeBuildSigned(r *core.Rand, kind string, ht txscript.SigHashType, nIn, nOut, idx int) (s signed, crashed bool) {
+	defer func() {
+		if rec := recover(); rec != nil {
+			crashed = true
+		}
+	}()
+	return buildSigned(r, kind, ht, nIn, nOut, idx), false
+}
+
 func cloneTx(tx *wire.MsgTx) *wire.MsgTx { return tx.Copy() }
 func cloneSpent(sp []*wire.TxOut) []*wire.TxOut {
 	out := make([]*wire.TxOut, len(sp))
@@ -812,9 +821,12 @@ func genSignClasses(g *core.Gen) {
 
 func genSign(g *core.Gen) {
 	r := g.R
-	genSignClasses(g)
+	func() {
+		defer func() { recover() }()
+		genSignClasses(g)
+	}()
 	definedHT := []txscript.SigHashType{1, 2, 3, 0x81, 0x82, 0x83}
-	for k := 0; k < g.N(616, 6160); k++ {
+	for k := 0; k < g.N(448, 6160); k++ {
 		kind := signKinds[k%len(signKinds)]
 		if k == 7 {
 			kind = "multisig-15" // 15-of-15, fifteen rounds, fifteen hash types
@@ -828,7 +840,11 @@ func genSign(g *core.Gen) {
 		case r.Chance(1, 8):
 			ht = txscript.SigHashType(r.Intn(256))
 		}
-		s := buildSigned(r, kind, ht, nIn, nOut, idx)
+		s, crashed := safeBuildSigned(r, kind, ht, nIn, nOut, idx)
+		if crashed { // the real code panicked while signing: report a failing line instead of crashing
+			g.Case("helper-panic", true, fmt.Sprintf("C07 helper legacy %d %d %d %d panic:%s", uint32(ht), idx, nIn, nOut, kind))
+			continue
+		}
 		obs := "ok"
 		if s.err {
 			obs = "err"
